@@ -16,7 +16,7 @@ Fixpoint normalize_inline (ctx : titles) (i : inline) : inline :=
       if is_ref_url url then
         Link url title lt
           match lt with
-          | Regular => match ctx (key_from_file_name url) with Some t => [Str t] | None => l end
+          | Regular => match ctx (key_name url) with Some t => [Str t] | None => l end
           | WikiLink => []
           | WikiLinkPiped => l
           end
@@ -109,6 +109,10 @@ End Projector.
 
 Record opts := Opts { refs_extension : string }.
 
+(* model/graph.rs:160-173: a wiki link is written without the configured extension; the url of a
+   note link that itself ends in `.md` gets one all the same (`ref_url`) *)
+Definition wiki_url (url : string) : string := if is_ref_url url then ref_url url "" else url.
+
 Fixpoint inline_md (o : opts) (i : inline) : string :=
   let fix go (l : list inline) : string :=
     match l with [] => "" | x :: r => inline_md o x +++ go r end in
@@ -122,11 +126,11 @@ Fixpoint inline_md (o : opts) (i : inline) : string :=
   | Link url _ lt l =>
       let text := go l in
       match lt with
-      | WikiLinkPiped => "[[" +++ url +++ "|" +++ text +++ "]]"
-      | WikiLink => "[[" +++ url +++ "]]"
+      | WikiLinkPiped => "[[" +++ wiki_url url +++ "|" +++ text +++ "]]"
+      | WikiLink => "[[" +++ wiki_url url +++ "]]"
       | Regular =>
           if negb (is_ref_url url) && eq_ignore_ascii_case text url then "<" +++ url +++ ">"
-          else if is_ref_url url then "[" +++ text +++ "](" +++ url +++ refs_extension o +++ ")"
+          else if is_ref_url url then "[" +++ text +++ "](" +++ ref_url url (refs_extension o) +++ ")"
           else "[" +++ text +++ "](" +++ url +++ ")"
       end
   | Image url _ l => "![" +++ go l +++ "](" +++ url +++ ")"
